@@ -39,9 +39,11 @@ PROPS = {
         },
         "describe": {
             "rule": ("one run = one seeded plan: scenario singleton (2..8 threads quick / 2..16 thorough, 1..3 rounds with reset() "
-                     "between rounds while all threads are quiescent, optional start barrier) or managed thread (0..2 observer "
-                     "threads, 1..8 queries each, explicit join or join by destructor, function with/without arguments), plus a "
-                     "schedule: random preemption with probability 1/p at every non-stack load/store and synchronisation call, "
+                     "between rounds while all threads are quiescent; fresh threads per round or persistent threads that live across "
+                     "reset(); optional start barrier, optionally two singleton types, optionally a constructor that throws on the first "
+                     "attempt) or managed thread (0..2 observer threads, 1..8 queries each, explicit join or join by destructor, function "
+                     "with/without arguments, held by a latch or returning at once), plus a schedule: random preemption with "
+                     "probability 1/p at every non-stack load/store and synchronisation call (optionally biased to lock/unlock points), "
                      "PCT with 1..3 priority change points, round-robin with random quantum, child-first/parent-first bias at "
                      "pthread_create. Non-trivial: at least one preemption or one wait for a mutex happened. Distinct: distinct "
                      "hashes over the executed context-switch sequence (thread, local point index, successor, point kind) and the "
@@ -53,7 +55,7 @@ PROPS = {
                 "real": ["celma::common::Singleton<T>", "celma::common::ManagedThread", "libstdc++ std::thread, std::mutex, std::atomic",
                          "ThreadSanitizer (clang 14) inside every run"],
                 "stub": ["OS thread scheduler: replaced by the baton scheduler (sim/sched.cpp) over real pthreads; "
-                         "pthread_create/join/mutex_lock/trylock/unlock, sched_yield and the sleep family are interposed"],
+                         "pthread_create/join, mutexes, reader/writer locks, condition variables, pthread_once, guards of function-local statics, sched_yield, the sleep family and clock_gettime (simulated clock) are interposed"],
             },
             "assumptions": [
                 "only sequentially consistent interleavings of instrumented accesses are executed; weak-memory effects are covered through ThreadSanitizer's happens-before analysis only",
@@ -71,14 +73,17 @@ PROPS = {
             "thorough": {"count": 200000000, "budget_s": 1200, "workers": 16, "recheck": 200},
         },
         "describe": {
-            "rule": ("one run = one seeded history: policy Counted(limit 1..5 entries) or MaxSize(limit 8..64 bytes), 1..4 generations, "
-                     "file-name definition variants (fixed width numbers, extension, path_sep, environment variable part, directory "
-                     "pre-existing or created by the policy), up to 24 (quick) / 40 (thorough) operations write(len 1..24) / clean restart / "
-                     "clock step, each optionally carrying one fault (process crash at the n-th file-system call incl. a torn write, short "
-                     "write, EINTR, ENOSPC/EIO on write, failing rename/mkdir); 30% of runs fault-free, 30% crash-only. After every "
-                     "operation the simulated disk is compared with the reference model; after the last operation a fresh process must "
-                     "re-open and roll twice. Non-trivial: at least one roll-over or (re)start/crash recovery happened. Distinct: distinct "
-                     "hashes over every simulated file-system call and its result plus the operation log."),
+            "rule": ("one run = one seeded history: policy Counted(limit 1..5 entries) or MaxSize(limit 8..64 bytes), 1..4 generations "
+                     "(1 run in 10: 9..12 generations with number width 1 and tiny limits), file-name definition variants (fixed width "
+                     "numbers, extension, path_sep, environment variable part, date part with a forward-moving clock = one series of "
+                     "generations per date, directory pre-existing or created by the policy), policy used directly or through the "
+                     "files::Handler<P> wrapper, up to 24 (quick) / 40 (thorough) operations write(len 1..24, 1 run in 8 with entries of "
+                     "1000..2600 bytes) / clean restart / clock step, each optionally carrying one fault: process crash at the n-th "
+                     "file-system call (incl. a torn write), short write, EINTR, an open that fails once; 30% of runs fault-free, 30% "
+                     "crash-only. After every operation the simulated disk is compared with the reference model (step relation, limits, "
+                     "content/order/holes); after the last operation a fresh process must re-open and roll twice. Non-trivial: at least "
+                     "one roll-over or (re)start/crash recovery happened. Distinct: distinct hashes over every simulated file-system "
+                     "call and its result plus the operation log."),
             "sim_time_unit": "simulated seconds (clock operations of the plans; the clock is read by the file-name builder only)",
             "state_measure": "distinct (policy, limit, generations) configurations",
             "distinct_measure": "distinct file-system call sequences (hash over every intercepted call, its arguments and result)",
@@ -92,7 +97,7 @@ PROPS = {
             "assumptions": [
                 "process crash model, not power loss: a byte is durable once write()/writev() returned it, rename/mkdir/unlink when they return; the library never calls fsync",
                 "a crash freezes the disk at the chosen call (optionally after a prefix of that write landed); the dead process' objects are destroyed without reaching the disk; recovery is a new policy object over the surviving files",
-                "after an injected I/O error (ENOSPC/EIO/rename/mkdir failure) only the weak form is demanded until the next clean restart: every line is a written message, no duplicates, order preserved",
+                "I/O errors that the library cannot hide (ENOSPC/EIO on write, failing rename/mkdir) are not generated: the property does not speak about what is left behind after them; the corresponding fault kinds therefore show up as never fired",
                 "both readings of 'would exceed' at the exact boundary are accepted; a new generation may be started before or after the message that fills the file",
                 "sampling, not enumeration",
             ],
@@ -110,7 +115,9 @@ PROPS = {
                      "constraints drawn per run), an abstract command line built from the recipe's rules and split into consecutive "
                      "parts delivered by the argument file (program-name file under $HOME/.progargs or an argument-file argument), the "
                      "environment variable (default or explicitly named) and argv; every word delivered through file/environment is "
-                     "quoted in a random style (backslash, single, double, mixed); comment/empty lines interspersed; file with or without "
+                     "quoted in a random style (backslash, single, double, mixed); comment/empty lines interspersed; an argument file may include "
+                     "another one, the environment variable may name the argument file, a free multi-value list may continue on the next "
+                     "line or in the next source; file with or without "
                      "final newline; reads chunked to 1..16 bytes, short reads, EINTR. The subject run must equal a reference run that "
                      "gets the same words on argv with the sources switched off (both return with equal destination values, or both "
                      "throw); override cases give a single-value argument through a source and again on argv. Non-trivial: at least "
@@ -178,11 +185,13 @@ PROPS = {
         "describe": {
             "rule": ("one run = one seeded plan: 2..6 (quick) / 2..16 (thorough) threads, each constructing its own handler from the recipe "
                      "menu (list destinations with separators drawn from , ; : . + | so that neighbouring threads differ, checks, formats, "
-                     "cardinalities, argument and handler constraints, abbreviations, in a minority usage output through the Groups "
-                     "singleton) and evaluating its own rule-obeying or mutated command line 1..3 times, plus a schedule (random "
-                     "preemption 1/p at every non-stack load/store and synchronisation call, PCT, round-robin). The same jobs are first "
-                     "run one after the other on the main thread (reference). Non-trivial: at least one preemption happened. Distinct: "
-                     "distinct hashes over the executed context-switch sequence and all per-thread records."),
+                     "cardinalities, argument and handler constraints, abbreviations, command-mode argument, in a minority usage output "
+                     "through the Groups singleton; patterns and value lists carry a per-thread token; 1 run in 4: all threads use handler "
+                     "constraints of different kinds over the same scalars) and evaluating its own rule-obeying or mutated command line "
+                     "1..3 times, plus a schedule (random preemption 1/p at every non-stack load/store and synchronisation call, "
+                     "optionally biased to lock/unlock points, PCT, round-robin). Per process a fixed warm-up runs first; inside a run "
+                     "the concurrent phase comes first, then the same jobs run alone (reference). Non-trivial: at least one preemption "
+                     "happened. Distinct: distinct hashes over the executed context-switch sequence and all per-thread records."),
             "sim_time_unit": "scheduler steps (schedule points executed); no wall-clock time passes inside a run",
             "state_measure": "distinct (number of threads, number of different recipe sets among them) tuples",
             "distinct_measure": "distinct context-switch sequences (hash over (thread, local point, successor, kind) of every switch) combined with the per-thread results",
@@ -190,12 +199,12 @@ PROPS = {
                 "real": ["celma::prog_args::Handler and everything it uses (ArgListParser, TypedArg<...>, common::Tokenizer, ConstraintContainer, "
                          "format::toString, Groups/Singleton for usage)", "boost::lexical_cast / tokenizer (header code compiled with instrumentation)",
                          "libstdc++ std::thread, iostreams", "ThreadSanitizer (clang 14) inside every run"],
-                "stub": ["OS thread scheduler: replaced by the baton scheduler (sim/sched.cpp) over real pthreads"],
+                "stub": ["OS thread scheduler: replaced by the baton scheduler (sim/sched.cpp) over real pthreads (creation, join, mutexes, rwlocks, condition variables, once, static-init guards, sleeps, clock)"],
             },
             "assumptions": [
                 "handlers with hfInGroup are excluded (they share the Groups registry by design); file and environment sources are not used in this check",
                 "only sequentially consistent interleavings of instrumented accesses are executed; weak-memory effects are covered through ThreadSanitizer's happens-before analysis only",
-                "first-use races of C++ function-local statics are not explored: the reference run initialises them before the threads start",
+                "first-use races of C++ function-local statics inside the library are mostly not explored: a fixed per-process warm-up initialises them before the first run (contended initialisation is handled by the scheduler if it happens)",
                 "code inside libstdc++.so / libc is atomic for the scheduler and invisible to ThreadSanitizer",
                 "sampling, not enumeration",
             ],
